@@ -240,6 +240,23 @@ def run_shard(sh):
             drive_splitter(sh, s)
             if idx % 40 == 0:
                 sh.sample({'value': repr(s)[:80], 'kind': 'long'})
+    # very long strings: every residue of the length modulo the line capacity, around the sizes where a "bulk" code path would plausibly start
+    # (a seeded change cut words of >= 1000 characters in one pass and duplicated the word when its length was an exact multiple of the capacity)
+    for base in ((255, 500, 1000, 2000, 4096) if quick else (255, 500, 1000, 2000, 2048, 4096, 5000, 8192, 10000, 65536)):
+        for w in ((30, 66) if quick else (12, 30, 66, 79, 120)):
+            for L_ in range(base, base + w + 2):
+                idx += 1
+                if not sh.mine(idx):
+                    continue
+                rng = V.rng_for('c02big', sh.seed, idx)
+                unit = rng.choice(['ab', '0123456789abcdef', 'x', "it's", 'é', 'a\\', 'word ', '\n'])
+                text = (unit * (L_ // len(unit) + 1))[:L_]
+                if rng.random() < 0.25:
+                    text = 'some words first ' + text + ' and a tail'
+                s = text.encode('latin-1', 'replace') if rng.random() < 0.4 else text
+                for ctx in (CONTEXTS if L_ % 3 == 0 else rng.sample(CONTEXTS, 2)):
+                    check_print(sh, s, ctx, w, {'indent': rng.choice([1, 4])} if L_ % 5 == 0 else None)
+                sh.counters['very long strings (>= 255 characters, all length residues)'] += 1
     nrand = 600 if quick else 20000
     for i in range(nrand):
         idx += 1
